@@ -312,6 +312,10 @@ def main(argv=None):
     # every C struct must have the size and alignment of the C++ object its wrapper casts it to (an under-aligned or undersized C object is an
     # out-of-bounds / misaligned access for a valid C caller): C19's layout and wrapper obligations
     chk.include("C19")
+    # part 2 of the property (valid calls): the WKD-IBE operations executed on keys, lists and slot arrays of exactly the documented sizes
+    # (every access is a checked access): the obligations of C11, C13 and C14
+    for dep in ("C11", "C13", "C14"):
+        chk.include(dep)
     chk.run()
     chk.finish()
 
